@@ -19,13 +19,15 @@ import (
 // tlsKit holds the certificates used by the TLS scenarios (C09, C19): one CA,
 // a server pair and client credentials of every kind the property names.
 type tlsKit struct {
-	Dir        string
-	CAFile     string
-	ServerCert string
-	ServerKey  string
-	Pool       *x509.CertPool
-	ServerTLS  tls.Certificate              // the server pair as a value (for SetTLSConfig)
-	Clients    map[string][]tls.Certificate // kind -> certificate list (empty = present none)
+	Dir         string
+	CAFile      string
+	ForeignCA   string // PEM file of the other CA (the one that issued Clients["foreign-ca"])
+	ForeignPool *x509.CertPool
+	ServerCert  string
+	ServerKey   string
+	Pool        *x509.CertPool
+	ServerTLS   tls.Certificate              // the server pair as a value (for SetTLSConfig)
+	Clients     map[string][]tls.Certificate // kind -> certificate list (empty = present none)
 }
 
 var (
@@ -129,7 +131,9 @@ func getKit() (*tlsKit, error) {
 		_, key, der, _ = makeCert(valid("localhost", false, true, false), 8, nil, nil)
 		k.Clients["self-signed"] = []tls.Certificate{tlsCert(key, der)}
 		// foreign CA
-		fca, fcaKey, _, _ := makeCert(valid("foreign-ca", true, false, false), 9, nil, nil)
+		fca, fcaKey, fcaDER, _ := makeCert(valid("foreign-ca", true, false, false), 9, nil, nil)
+		k.ForeignPool = x509.NewCertPool()
+		k.ForeignPool.AddCert(fca)
 		_, key, der, _ = makeCert(valid("localhost", false, true, false), 10, fca, fcaKey)
 		k.Clients["foreign-ca"] = []tls.Certificate{tlsCert(key, der)}
 		// right CA, wrong name, followed by an unrelated self-made end-entity certificate
@@ -158,6 +162,8 @@ func getKit() (*tlsKit, error) {
 			kitErr = err
 			return
 		}
+		k.ForeignCA = filepath.Join(k.Dir, "foreign-ca.pem")
+		os.WriteFile(k.ForeignCA, pemCert(fcaDER), 0o644)
 		os.WriteFile(k.ServerCert, pemCert(svDER), 0o644)
 		os.WriteFile(k.ServerKey, pemKey(svKey), 0o600)
 		kit = k
